@@ -272,5 +272,15 @@ func properties() map[string]*Property {
 		Extra:  []string{"spec-lemmas"},
 		Assume: specAssume,
 	}
+	ps["C11"] = &Property{ID: "C11", Level: "proof",
+		Jobs:   simJobs("skipValueFast", "SkipValueFast", "skipValue", "skipFloatDec", "skipFloatExp", "SkipValue"),
+		Labels: []string{"C11", "C02"},
+		Extra:  []string{"spec-lemmas"},
+		Assume: append([]string{
+			"C11 is decided as the conjunction of two contracts over the same specification run: SkipValue succeeds <==> accepts(data), then p == endof(data) (the C02 contract, re-proved here), and accepts(data) ==> SkipValueFast succeeds with p == endof(data)",
+			"skipValueFast is proved under the entry hypothesis accepts(data) (every clause proved in that mode is an implication from it); its memory safety on arbitrary input is C10's business",
+			"the spec transducer is extended with two counters (open array frames, open object frames); that they equal the number of such frames on the spec stack is lemma count-*, discharged by induction (base / step obligations) with explicit instances of the recursive definition",
+		}, specAssume...),
+	}
 	return ps
 }
